@@ -119,6 +119,22 @@ Definition lda_lookahead (ahead : list line) : bool :=
   | _ => false
   end.
 
+(** AsmMnemonic::defines_nz: the instruction sets both N and Z whatever they were *)
+Definition defines_nz (m : mnem) : bool :=
+  match m with
+  | LDA | LDX | LDY | TAX | TAY | TXA | TYA | ADC | SBC | EOR | AND | ORA
+  | LSR | ASL | ROL | ROR | CMP | CPX | CPY | INC | INX | INY | DEC | DEX | DEY | PLA => true
+  | _ => false
+  end.
+
+(** the look-ahead of the LDX/LDY case: comments and removed lines are skipped *)
+Fixpoint ldxy_lookahead (ahead : list line) : bool :=
+  match ahead with
+  | Ins j :: _ => defines_nz (i_mn j)
+  | Cmt _ :: t | Dummy :: t => ldxy_lookahead t
+  | _ => false
+  end.
+
 Definition ends_x (s : string) : bool := ends_with ",X" s.
 Definition ends_y (s : string) : bool := ends_with ",Y" s.
 
@@ -134,10 +150,20 @@ Definition transfer (k : know) (i : instr) (ahead : list line) : know * bool :=
                 else false in
       (mkK (Some o) x y FA, rs)
   | LDX =>
-      let rs := if opt_eqb x o then negb (i_prot i) else false in
+      let rs := if opt_eqb x o
+                then (match fl with
+                      | FX => negb (i_prot i)
+                      | _ => if ldxy_lookahead ahead then negb (i_prot i) else false
+                      end)
+                else false in
       (mkK (kill_if ends_x a) (Some o) (kill_if ends_x y) FX, rs)
   | LDY =>
-      let rs := if opt_eqb y o then negb (i_prot i) else false in
+      let rs := if opt_eqb y o
+                then (match fl with
+                      | FY => negb (i_prot i)
+                      | _ => if ldxy_lookahead ahead then negb (i_prot i) else false
+                      end)
+                else false in
       (mkK (kill_if ends_y a) (kill_if ends_y x) (Some o) FY, rs)
   | DEC | INC =>
       let kl := kill_if (fun v => negb (is_imm v)) in
@@ -149,24 +175,26 @@ Definition transfer (k : know) (i : instr) (ahead : list line) : know * bool :=
                        | Some v => if ends_x v then (None, None) else (a, a)
                        | None => (None, None)
                        end in
-      (mkK a' x' (kill_if ends_x y) fl, false)
+      (mkK a' x' (kill_if ends_x y) FA, false)
   | TAY =>
       let '(a', y') := match a with
                        | Some v => if ends_y v then (None, None) else (a, a)
                        | None => (None, None)
                        end in
-      (mkK a' (kill_if ends_y x) y' fl, false)
-  | TXA => (mkK x x y fl, false)
-  | TYA => (mkK y x y fl, false)
+      (mkK a' (kill_if ends_y x) y' FA, false)
+  | TXA => (mkK x x y FA, false)
+  | TYA => (mkK y x y FA, false)
   | STA | STX | STY =>
       let kl := kill_if (fun v => negb (is_imm v)) in
       (mkK (kl a) (kl x) (kl y) fl, false)
   | LSR | ASL | ROL | ROR =>
-      if String.eqb o "" then (mkK None x y fl, false)
+      if String.eqb o "" then (mkK None x y FA, false)
       else
         let kl := kill_if (fun v => negb (is_imm v)) in
         (mkK (kl a) (kl x) (kl y) FUnknown, false)
-  | ADC | SBC | EOR | AND | ORA | PLA | PHA => (mkK None x y fl, false)
+  | ADC | SBC | EOR | AND | ORA | PLA => (mkK None x y FA, false)
+  | PHA => (mkK None x y fl, false)
+  | PLP => (mkK a x y FUnknown, false)
   | JSR | JMP => (mkK None None None fl, false)
   | CPX | CPY | CMP => (mkK a x y FUnknown, false)
   | _ => (k, false)
